@@ -225,9 +225,10 @@ class VdirStore(Store):
                 continue
             if name == CONFIG_FILENAME:
                 continue
-            if name.endswith(".ics"):
+            # extensions compare case-insensitively (as for the git stores)
+            if name.lower().endswith(".ics"):
                 content_type = "text/calendar"
-            elif name.endswith(".vcf"):
+            elif name.lower().endswith(".vcf"):
                 content_type = "text/vcard"
             else:
                 continue
